@@ -432,3 +432,27 @@ MANIFEST = dict(
     level_note='Trusted: Coq kernel; extraction; the grammar is a structural validator, not a full TLS 1.3 validator; schedules are sampled (passive tap), not enumerated; '
                'C04 (codec worker) for |frame| = 14 + payload + extra.',
     design_ref='DESIGN.md section 6, C10')
+
+# ---- concurrency windows (tools/props/winlib.py): pooled record buffer under concurrent writers
+import winlib
+
+TRUSTED = TRUSTED + ['pooled record buffer: no seam exists between sync.Pool.Put and the following statements of TLSConn.Write, so "no use after Put" is decided by the generated obligation (Proofs/AtomWire) and, independently, by the race detector used as a happens-before checker on a run in which buffers migrate between goroutines by construction (harness/common/c10_pool_test.go, mode hb); the stress run that looks for an actually malformed buffer is statistical (measured: see evidence pool_runs)']
+MANIFEST = dict(MANIFEST, level_note=MANIFEST['level_note'] + ' Concurrent writers on one TLSConn: every buffer handed to the underlying connection is checked to be exactly one well-formed record of its writer, N goroutines x M writes with GOMAXPROCS varied (statistical), plus a deterministic happens-before run under the race detector for the pooled buffer.')
+_corr_before_windows = correspondence
+_replay_before_windows = replay
+
+
+def correspondence(ctx, verdict, pr):
+    res = _corr_before_windows(ctx, verdict, pr)
+    res['broken'] += winlib.c10_windows(ctx, verdict)
+    return res
+
+
+def replay(ctx, verdict):
+    if ctx.replay.get('kind') == 'window':
+        return winlib.replay(ctx, verdict)
+    return _replay_before_windows(ctx, verdict)
+
+
+def search(ctx, verdict, problems):
+    return winlib.search(ctx, verdict, problems)
